@@ -450,8 +450,52 @@ let cmd_filesel () =
     done
   with End_of_file -> ()
 
+(* ---------------- Parallel signatures: "COE b | T sig | S sig @ elem ; E sig ; .. | M sig @ key val ; E sig" -> diags *)
+let cmd_parsig () =
+  let ty = function "c" -> GCtx | "e" -> GErr | "b" -> GBool | n -> GVal (nat n) in
+  let sg toks = match toks with
+    | v :: rest ->
+      let rec split acc = function ">" :: r -> (List.rev acc, r) | x :: r -> split (x :: acc) r | [] -> (List.rev acc, []) in
+      let (ps, rs) = split [] rest in
+      { sg_variadic = (v = "1"); sg_params = List.map ty ps; sg_results = List.map ty rs }
+    | [] -> { sg_variadic = false; sg_params = []; sg_results = [] } in
+  let rec upto_at acc = function "@" :: r -> (List.rev acc, r) | x :: r -> upto_at (x :: acc) r | [] -> (List.rev acc, []) in
+  let assignable a b = (a = b) || b = GVal (nat_of_int 9) in
+  let sname = function
+    | SVariadic -> "SVariadic" | SCtxPos -> "SCtxPos" | SErrPos -> "SErrPos" | SPredResult -> "SPredResult"
+    | SFbCount -> "SFbCount" | SFbNoErr -> "SFbNoErr" | SNoOutput -> "SNoOutput" | SInvokeWithOutput -> "SInvokeWithOutput" in
+  let pname = function
+    | PFn d -> "PFn:" ^ sname d | PTaskArgs -> "PTaskArgs" | PTaskResults -> "PTaskResults" | PSliceResults -> "PSliceResults"
+    | PSliceArity -> "PSliceArity" | PSliceIndex -> "PSliceIndex" | PSliceElem -> "PSliceElem" | PMapResults -> "PMapResults"
+    | PMapArity -> "PMapArity" | PMapKey -> "PMapKey" | PMapVal -> "PMapVal" | PEndArgs -> "PEndArgs" | PEndResults -> "PEndResults"
+    | PEndTwice -> "PEndTwice" | PEndWithCOE -> "PEndWithCOE" in
+  try
+    while true do
+      let line = input_line stdin in
+      let coe = ref false and items = ref [] in
+      List.iter (fun part ->
+        let segs = List.map split_ws (String.split_on_char ';' part) in
+        match segs with
+        | ["COE"; b] :: _ -> coe := (b = "1")
+        | ("T" :: r) :: _ -> items := !items @ [ITask (sg r)]
+        | ("S" :: r) :: ends ->
+          let (f, rest) = upto_at [] r in
+          let es = List.filter_map (function "E" :: e -> Some (sg e) | _ -> None) ends in
+          (match rest with [el] -> items := !items @ [ISlice (sg f, ty el, es)] | _ -> ())
+        | ("M" :: r) :: ends ->
+          let (f, rest) = upto_at [] r in
+          let es = List.filter_map (function "E" :: e -> Some (sg e) | _ -> None) ends in
+          (match rest with [k; v] -> items := !items @ [IMap (sg f, ty k, ty v, es)] | _ -> ())
+        | _ -> ()) (String.split_on_char '|' line);
+      match compile_parallel assignable !coe !items with
+      | [] -> print_endline "ACCEPT"
+      | ds -> print_endline ("REJECT " ^ String.concat "," (List.map pname ds))
+    done
+  with End_of_file -> ()
+
 let () =
   match Array.to_list Sys.argv with
+  | _ :: "parsig" :: _ -> cmd_parsig ()
   | _ :: "filesel" :: _ -> cmd_filesel ()
   | _ :: "sigtask" :: _ -> cmd_sigtask ()
   | _ :: "flowobs" :: _ -> cmd_flowobs ()
